@@ -18,8 +18,9 @@ class PairRun(object):
 
     def __init__(self, seed=0, policy='fair', cfg_a=None, cfg_b=None, capacity=None):
         self.sim = Sim(seed=seed, policy=policy)
-        self.cfg_a = th.make_config('dtn://node-a/', **(cfg_a or {}))
-        self.cfg_b = th.make_config('dtn://node-b/', **(cfg_b or {}))
+        cfg_a, cfg_b = dict(cfg_a or {}), dict(cfg_b or {})
+        self.cfg_a = th.make_config(cfg_a.pop('node_id', 'dtn://node-a/'), **cfg_a)
+        self.cfg_b = th.make_config(cfg_b.pop('node_id', 'dtn://node-b/'), **cfg_b)
         (self.a, self.b, self.sock_a, self.sock_b) = th.make_pair(self.sim, self.cfg_a, self.cfg_b, capacity=capacity)
         self.ends = {'A': self.a, 'B': self.b}
         self.queued = {'A': [], 'B': []}  # (tid, payload, event_no)
